@@ -81,6 +81,25 @@ def all_cases(tier):
                 for order in (("app7", "lib7"), ("lib7", "app7")):
                     for early in (False, True):
                         yield ("L", h, mask, order, early)
+    yield from _cases_N(tier)
+
+
+# N: the same hierarchies with class paths that are textual prefixes / suffixes of each other (same class name in m7, pk7.m7, pk7.pk7.m7;
+# names C, CC, CCC in one module): cycle detection and base lookup must compare whole paths, not pieces of text
+NAMINGS = {
+    "suffix": [("m7", "C"), ("pk7.m7", "C"), ("pk7.pk7.m7", "C"), ("qq7.pk7.m7", "C")],
+    "prefix": [("m7", "C"), ("m7", "CC"), ("m7", "CCC"), ("m7", "C_")],
+    "mixed": [("pk7.m7", "CC"), ("m7", "C"), ("pk7.m7", "C"), ("m7", "CC")],
+    "reversed": [("pk7.pk7.m7", "C"), ("pk7.m7", "C"), ("m7", "C"), ("m7", "m7")],
+}
+
+
+def _cases_N(tier):
+    for n in range(2, _NX[tier] + 1):
+        for h in hierarchies(n):
+            if any(h):
+                for naming in NAMINGS:
+                    yield ("N", h, naming)
 
 
 def _has_cycle(h):
@@ -332,6 +351,52 @@ def _run_case(griffe, acc, case):
                 got = _judge_mro(acc, case, loader.modules_collection[where[i]].members[f"C{i}"], exp[i], "load-history/" + ("queried-early" if early else "queried-at-end") + "/" + ("derived-first" if order[0] == "app7" else "base-first"))
                 outs.append(got[0] + ":" + exp[i][0])
         acc.case(case, outcome="hist:" + ",".join(sorted(set(outs))), nontrivial=True)
+        acc.observe(outs)
+    elif kind == "N":
+        naming = NAMINGS[case[2]]
+        n = len(h)
+        files, srcs = {}, {}
+        for i in range(n):
+            modpath, name = naming[i]
+            parts = modpath.split(".")
+            for k in range(1, len(parts)):
+                files.setdefault("/".join(parts[:k]) + "/__init__.py", "")
+            imports, bases = [], []
+            for j in h[i]:
+                if naming[j][0] == modpath:
+                    bases.append(naming[j][1])
+                else:
+                    imports.append(f"import {naming[j][0]} as M{j}")
+                    bases.append(f"M{j}.{naming[j][1]}")
+            b = "(" + ", ".join(bases) + ")" if bases else ""
+            srcs[modpath] = srcs.get(modpath, "") + "".join(x + "\n" for x in imports) + f"class {name}{b}:\n    pass\n"
+        for modpath, src in srcs.items():
+            files[modpath.replace(".", "/") + ".py"] = src
+        with sandbox.scratch_dir("c07n") as d:
+            sandbox.write_tree(d, files)
+            loader = griffe.GriffeLoader(search_paths=[d])
+            for top in sorted({m.split(".")[0] for m in srcs}):
+                loader.load(top)
+            loader.resolve_aliases(implicit=True)
+            exp, _ = _cpython(h)
+            outs = []
+            for i in range(n):
+                cls = loader.modules_collection[naming[i][0]].members[naming[i][1]]
+                try:
+                    with sandbox.time_limit(10):
+                        got = ("mro", [c.path for c in cls.mro()])
+                except ValueError:
+                    got = ("reject",)
+                except Exception as e:  # noqa: BLE001
+                    got = ("raise", type(e).__name__)
+                want = exp[i] if exp[i][0] != "mro" else ("mro", [".".join(naming[int(x[1:])]) for x in exp[i][1]])
+                outs.append(got[0] + ":" + want[0])
+                if want[0] == "unknown":
+                    continue
+                if got != want:
+                    what = "raise-" + got[1] if got[0] == "raise" else "rejects-consistent" if got[0] == "reject" else "accepts-inconsistent" if want[0] == "reject" else "order"
+                    acc.violation(f"mro/{what}/related-paths/{case[2]}", f"{cls.path}: Griffe {got}, CPython {want}", case, {"files": files})
+        acc.case(case, outcome="names:" + ",".join(sorted(set(outs))), nontrivial=True)
         acc.observe(outs)
     elif kind == "Y":
         mod = _load_single(griffe, _source(h))
